@@ -39,6 +39,13 @@ M = [
  ("sms_hash_includes_name", "src/source_map_source.rs", "    self.remove_original_source.hash(state);\n", "    self.remove_original_source.hash(state);\n    self.name.len().hash(state);\n", {"C14": "P2"}),
  ("rope_bound_plus1", "src/rope.rs", "    Bound::Included(&end) => Some(end.saturating_add(1)),", "    Bound::Included(&end) => Some(end + 1),", {"C17": "V"}),
  ("rope_empty_guard_removed", "src/rope.rs", "        // a rope built from no (non-empty) pieces has no chunk to index\n        if data.is_empty() {\n          return Ok(Rope::new());\n        }\n", "", {"C19": "V"}),
+ # ---- breaking: Rope core (unit rope_core) ----
+ ("rope_add_offset0", "src/rope.rs", "        let vec = Vec::from_iter([(*s, 0), (value, s.len())]);", "        let vec = Vec::from_iter([(*s, 0), (value, 0)]);", {"C16": "V"}),
+ ("rope_append_len_not_advanced", "src/rope.rs", "        for &(chunk, _) in other.iter() {\n          cur.push((chunk, len));\n          len += chunk.len();\n        }", "        for &(chunk, _) in other.iter() {\n          cur.push((chunk, len));\n        }", {"C16": "V", "C05": "V"}),
+ ("rope_slice_last_piece_dropped", "src/rope.rs", "        (start_chunk_index..end_chunk_index + 1).try_for_each(|i| {", "        (start_chunk_index..end_chunk_index).try_for_each(|i| {", {"C16": "V"}),
+ ("rope_unchecked_off_by_one", "src/rope.rs", "            let chunk = unsafe { chunk.get_unchecked(..end) };", "            let chunk = unsafe { chunk.get_unchecked(..end + 1) };", {"C19": "V"}),
+ ("rope_end_check_removed", "src/rope.rs", "      (None, Some(end)) => {\n        if end > self.len() {\n          return Err(Error::Rope(\"end out of bounds\"));\n        }\n      }", "      (None, Some(_end)) => {}", {"C17": "V", "C19": "V"}),
+ ("benign_rope_len_commute", "src/rope.rs", "        .map_or(0, |(chunk, start_pos)| start_pos + chunk.len()),\n    }\n  }", "        .map_or(0, |(chunk, start_pos)| chunk.len() + start_pos),\n    }\n  }", {"C16": "P2"}),
  # ---- benign ----
  ("benign_rename_local", "src/encoder.rs", "let mut digit = num & 0b11111;\n    num >>= 5;\n    if num > 0 {\n      digit |= 1 << 5;\n    }\n    out.push(B64_CHARS[digit as usize]);",
   "let mut dg = num & 0b11111;\n    num >>= 5;\n    if num > 0 {\n      dg |= 1 << 5;\n    }\n    out.push(B64_CHARS[dg as usize]);", {"C12": "P", "C17": "P"}),
